@@ -1,7 +1,329 @@
-(* HtmlProofs.v — proofs about Model/Html.v (property C20). *)
+(* HtmlProofs.v — escape / unescape / render / parse_html (property C20). *)
 From PG Require Import Common.Tactics Model.Html.
-From Coq Require Import NArith.
+From Coq Require Import NArith String.
 Local Open Scope N_scope.
 
-Lemma render_txt : forall s, render (Txt s) = escape s.
+(* ------------------------------------------------------------------------------------------ *)
+(* escape                                                                                       *)
+Lemma escape_cons : forall c s, escape (c :: s) = esc_char c ++ escape s.
 Proof. reflexivity. Qed.
+Lemma escape_app : forall a b, escape (a ++ b) = escape a ++ escape b.
+Proof. intros; unfold escape; apply flat_map_app. Qed.
+
+(* the five special characters, or none of them *)
+Inductive char_class (c : N) : Prop :=
+| cc_amp : c = c_amp -> char_class c
+| cc_lt : c = c_lt -> char_class c
+| cc_gt : c = c_gt -> char_class c
+| cc_quot : c = c_quot -> char_class c
+| cc_apos : c = c_apos -> char_class c
+| cc_plain : (c =? c_amp) = false -> (c =? c_lt) = false -> (c =? c_gt) = false ->
+             (c =? c_quot) = false -> (c =? c_apos) = false -> esc_char c = [c] -> char_class c.
+Lemma classify : forall c, char_class c.
+Proof.
+  intro c.
+  destruct (c =? c_amp) eqn:E1; [apply cc_amp; now apply N.eqb_eq|].
+  destruct (c =? c_lt) eqn:E2; [apply cc_lt; now apply N.eqb_eq|].
+  destruct (c =? c_gt) eqn:E3; [apply cc_gt; now apply N.eqb_eq|].
+  destruct (c =? c_quot) eqn:E4; [apply cc_quot; now apply N.eqb_eq|].
+  destruct (c =? c_apos) eqn:E5; [apply cc_apos; now apply N.eqb_eq|].
+  apply cc_plain; auto. unfold esc_char. now rewrite E1, E2, E3, E4, E5.
+Qed.
+
+Lemma escape_no_meta4 : forall s, forallb (fun c => negb (is_meta4 c)) (escape s) = true.
+Proof.
+  induction s as [|c s IH]; [reflexivity|].
+  rewrite escape_cons, forallb_app, IH, andb_true_r.
+  destruct (classify c) as [->| ->| ->| ->| ->|E1 E2 E3 E4 E5 E]; try reflexivity.
+  rewrite E. simpl. unfold is_meta4. now rewrite E2, E3, E4, E5.
+Qed.
+
+Lemma escape_amps_ok : forall s, amps_ok (escape s) = true.
+Proof.
+  induction s as [|c s IH]; [reflexivity|].
+  rewrite escape_cons.
+  destruct (classify c) as [->| ->| ->| ->| ->|E1 E2 E3 E4 E5 E]; try (cbn; exact IH).
+  rewrite E. cbn [app amps_ok]. now rewrite E1, IH.
+Qed.
+
+Lemma escape_safe : forall s, no_meta (escape s).
+Proof. intro s; split; [apply escape_no_meta4 | apply escape_amps_ok]. Qed.
+
+(* the explicit reading of amps_ok: every ampersand of the string is followed by one of the five entity names *)
+Lemma amps_ok_spec : forall l pre post, amps_ok l = true -> l = pre ++ c_amp :: post ->
+  exists ch n, entity_at post = Some (ch, n).
+Proof.
+  intros l pre; revert l; induction pre as [|x pre IH]; intros l post H E; subst l; simpl in H.
+  - apply andb_prop in H; destruct H as [H _]. destruct (entity_at post) as [[ch n]|]; [eauto|discriminate].
+  - apply andb_prop in H; destruct H as [_ H]. eapply IH; eauto.
+Qed.
+
+Lemma unescape_escape : forall s, unescape (escape s) = s.
+Proof.
+  unfold unescape. induction s as [|c s IH]; [reflexivity|].
+  rewrite escape_cons.
+  destruct (classify c) as [->| ->| ->| ->| ->|E1 E2 E3 E4 E5 E]; try (cbn; now rewrite IH).
+  rewrite E. cbn [app unesc]. now rewrite E1, IH.
+Qed.
+
+(* escape is injective (so nothing is lost or confused by escaping) *)
+Lemma escape_inj : forall a b, escape a = escape b -> a = b.
+Proof. intros a b H. rewrite <- (unescape_escape a), <- (unescape_escape b). now rewrite H. Qed.
+
+(* ------------------------------------------------------------------------------------------ *)
+(* the parser automaton                                                                         *)
+Lemma fm_cons : forall {A B} (f : A -> list B) x r, flat_map f (x :: r) = f x ++ flat_map f r.
+Proof. reflexivity. Qed.
+Lemma run_app : forall a b p, run_parser (a ++ b) p = run_parser b (run_parser a p).
+Proof. intros; unfold run_parser; apply fold_left_app. Qed.
+Lemma run_cons : forall c s p, run_parser (c :: s) p = run_parser s (step p c).
+Proof. reflexivity. Qed.
+Lemma run_nil : forall p, run_parser [] p = p.
+Proof. reflexivity. Qed.
+
+Lemma str_eqb_refl : forall s, str_eqb s s = true.
+Proof. induction s; simpl; [reflexivity|]. now rewrite N.eqb_refl. Qed.
+Lemma str_eqb_eq : forall a b, str_eqb a b = true -> a = b.
+Proof.
+  induction a; destruct b; simpl; intros H; try discriminate; [reflexivity|].
+  apply andb_prop in H; destruct H as [H1 H2]. apply N.eqb_eq in H1. f_equal; auto.
+Qed.
+
+(* one escaped character read in text mode / in attribute-value mode *)
+Lemma text_char : forall c acc kids stack,
+  run_parser (esc_char c) (PS (MText (TS acc None)) kids stack) = PS (MText (TS (acc ++ [c]) None)) kids stack.
+Proof.
+  intros c acc kids stack.
+  destruct (classify c) as [->| ->| ->| ->| ->|E1 E2 E3 E4 E5 E]; try reflexivity.
+  rewrite E. cbn [run_parser fold_left step tstep]. rewrite E1, E2.
+  unfold is_meta4. now rewrite E2, E3, E4, E5.
+Qed.
+Lemma text_run : forall s acc kids stack,
+  run_parser (escape s) (PS (MText (TS acc None)) kids stack) = PS (MText (TS (acc ++ s) None)) kids stack.
+Proof.
+  induction s as [|c s IH]; intros; [now rewrite app_nil_r|].
+  rewrite escape_cons, run_app, text_char, IH. now rewrite <- app_assoc.
+Qed.
+Lemma aval_char : forall c tag opts attrs an acc kids stack,
+  run_parser (esc_char c) (PS (MAVal (tag, opts, attrs) an (TS acc None)) kids stack)
+  = PS (MAVal (tag, opts, attrs) an (TS (acc ++ [c]) None)) kids stack.
+Proof.
+  intros c tag opts attrs an acc kids stack.
+  destruct (classify c) as [->| ->| ->| ->| ->|E1 E2 E3 E4 E5 E]; try reflexivity.
+  rewrite E. cbn [run_parser fold_left step tstep]. rewrite E1, E4.
+  unfold is_meta4. now rewrite E2, E3, E4, E5.
+Qed.
+Lemma aval_run : forall s tag opts attrs an acc kids stack,
+  run_parser (escape s) (PS (MAVal (tag, opts, attrs) an (TS acc None)) kids stack)
+  = PS (MAVal (tag, opts, attrs) an (TS (acc ++ s) None)) kids stack.
+Proof.
+  induction s as [|c s IH]; intros; [now rewrite app_nil_r|].
+  rewrite escape_cons, run_app, aval_char, IH. now rewrite <- app_assoc.
+Qed.
+
+(* names *)
+Lemma alpha_name_char : forall c, is_alpha c = true -> is_name_char c = true.
+Proof. intros c H; unfold is_name_char; now rewrite H. Qed.
+Lemma alpha_not_slash : forall c, is_alpha c = true -> (c =? c_slash) = false.
+Proof. intros c H. unfold is_alpha, c_slash in *. lia. Qed.
+Lemma name_char_facts : forall c, is_name_char c = true ->
+  (c =? c_sp) = false /\ (c =? c_gt) = false /\ (c =? c_eq) = false.
+Proof. intros c H. unfold is_name_char, is_alpha, c_sp, c_gt, c_eq in *. lia. Qed.
+
+Lemma open_name_run : forall s acc kids stack, forallb is_name_char s = true ->
+  run_parser s (PS (MOpen acc) kids stack) = PS (MOpen (acc ++ s)) kids stack.
+Proof.
+  induction s as [|c s IH]; intros acc kids stack H; [now rewrite app_nil_r|].
+  simpl in H; apply andb_prop in H; destruct H as [Hc Hs].
+  rewrite run_cons. cbn [step]. rewrite Hc, IH by assumption. now rewrite <- app_assoc.
+Qed.
+Lemma aname_run : forall s tag opts attrs acc kids stack, forallb is_name_char s = true ->
+  run_parser s (PS (MAName (tag, opts, attrs) acc) kids stack) = PS (MAName (tag, opts, attrs) (acc ++ s)) kids stack.
+Proof.
+  induction s as [|c s IH]; intros tag opts attrs acc kids stack H; [now rewrite app_nil_r|].
+  simpl in H; apply andb_prop in H; destruct H as [Hc Hs].
+  rewrite run_cons. cbn [step]. rewrite Hc, IH by assumption. now rewrite <- app_assoc.
+Qed.
+Lemma close_name_run : forall s acc kids stack, forallb is_name_char s = true ->
+  run_parser s (PS (MClose acc) kids stack) = PS (MClose (acc ++ s)) kids stack.
+Proof.
+  induction s as [|c s IH]; intros acc kids stack H; [now rewrite app_nil_r|].
+  simpl in H; apply andb_prop in H; destruct H as [Hc Hs].
+  rewrite run_cons. cbn [step]. rewrite Hc, IH by assumption. now rewrite <- app_assoc.
+Qed.
+
+Lemma name_ok_split : forall n, name_okb n = true ->
+  exists c r, n = c :: r /\ is_alpha c = true /\ forallb is_name_char r = true.
+Proof.
+  intros [|c r] H; [discriminate|]. simpl in H. apply andb_prop in H. destruct H. eauto.
+Qed.
+Lemma name_ok_chars : forall n, name_okb n = true -> forallb is_name_char n = true.
+Proof.
+  intros n H. destruct (name_ok_split n H) as (c & r & -> & Hc & Hr). simpl. now rewrite (alpha_name_char c Hc), Hr.
+Qed.
+
+(* a mode that, having read the tag and [o], accepts a space (then more options / attributes) or gt (then opens the element) *)
+Definition ready (o : otag) (m : mode) : Prop :=
+  forall kids stack, step (PS m kids stack) c_sp = PS (MSpace o) kids stack
+                  /\ step (PS m kids stack) c_gt = push_open o kids stack.
+Lemma ready_open : forall tag, ready (tag, [], []) (MOpen tag).
+Proof. intros tag kids stack; split; reflexivity. Qed.
+Lemma ready_aname : forall tag opts attrs an, ready (tag, opts ++ [an], attrs) (MAName (tag, opts, attrs) an).
+Proof. intros tag opts attrs an kids stack; split; reflexivity. Qed.
+Lemma ready_aend : forall o, ready o (MAEnd o).
+Proof. intros o kids stack; split; reflexivity. Qed.
+
+(* after a space: a whole name *)
+Lemma space_name_run : forall n tag opts attrs kids stack, name_okb n = true ->
+  run_parser n (PS (MSpace (tag, opts, attrs)) kids stack) = PS (MAName (tag, opts, attrs) n) kids stack.
+Proof.
+  intros n tag opts attrs kids stack H.
+  destruct (name_ok_split n H) as (c & r & -> & Hc & Hr).
+  rewrite run_cons. cbn [step]. rewrite Hc. now rewrite aname_run.
+Qed.
+
+Lemma attrs_run : forall attrs2 tag opts attrs m kids stack,
+  ready (tag, opts, attrs) m ->
+  forallb (fun a => name_okb (fst a)) attrs2 = true ->
+  run_parser (flat_map render_attr attrs2 ++ [c_gt]) (PS m kids stack) = push_open (tag, opts, attrs ++ attrs2) kids stack.
+Proof.
+  induction attrs2 as [|[an v] r IH]; intros tag opts attrs m kids stack R H.
+  - simpl. rewrite app_nil_r. apply R.
+  - simpl in H; apply andb_prop in H; destruct H as [Ha Hr].
+    rewrite fm_cons. unfold render_attr at 1. cbn [fst snd]. rewrite <- app_assoc. cbn [app]. rewrite run_cons.
+    destruct (R kids stack) as [-> _].
+    rewrite <- !app_assoc. rewrite run_app, space_name_run by assumption.
+    cbn [app]. rewrite run_cons.
+    assert (S1 : step (PS (MAName (tag, opts, attrs) an) kids stack) c_eq = PS (MAEq (tag, opts, attrs) an) kids stack) by reflexivity.
+    rewrite S1. rewrite run_cons. cbn [step]. change (c_quot =? c_quot) with true. cbv iota.
+    rewrite <- ?app_assoc. rewrite run_app, aval_run. cbn [app]. rewrite run_cons.
+    assert (S2 : step (PS (MAVal (tag, opts, attrs) an (TS v None)) kids stack) c_quot
+                 = PS (MAEnd (tag, opts, attrs ++ [(an, v)])) kids stack) by reflexivity.
+    rewrite S2. rewrite (IH tag opts (attrs ++ [(an, v)]) _ kids stack (ready_aend _) Hr).
+    now rewrite <- app_assoc.
+Qed.
+
+Lemma opts_run : forall opts2 attrs2 tag opts m kids stack,
+  ready (tag, opts, []) m ->
+  forallb name_okb opts2 = true -> forallb (fun a => name_okb (fst a)) attrs2 = true ->
+  run_parser (flat_map render_opt opts2 ++ flat_map render_attr attrs2 ++ [c_gt]) (PS m kids stack)
+  = push_open (tag, opts ++ opts2, attrs2) kids stack.
+Proof.
+  induction opts2 as [|on r IH]; intros attrs2 tag opts m kids stack R Ho Ha.
+  - cbn [flat_map app]. rewrite (attrs_run attrs2 tag opts [] m kids stack R Ha). now rewrite app_nil_r.
+  - simpl in Ho; apply andb_prop in Ho; destruct Ho as [Hon Hr].
+    rewrite fm_cons. unfold render_opt at 1. rewrite <- app_assoc. cbn [app]. rewrite run_cons.
+    destruct (R kids stack) as [-> _].
+    rewrite run_app, space_name_run by assumption.
+    rewrite (IH attrs2 tag (opts ++ [on]) _ kids stack (ready_aname tag opts [] on) Hr Ha).
+    now rewrite <- app_assoc.
+Qed.
+
+Lemma open_tag_run : forall tag opts attrs txt kids stack,
+  name_okb tag = true -> forallb name_okb opts = true -> forallb (fun a => name_okb (fst a)) attrs = true ->
+  run_parser (open_tag tag opts attrs) (PS (MText (TS txt None)) kids stack)
+  = PS (MText (TS [] None)) [] (((tag, opts, attrs), flush_text txt kids) :: stack).
+Proof.
+  intros tag opts attrs txt kids stack Ht Ho Ha.
+  destruct (name_ok_split tag Ht) as (c & r & -> & Hc & Hr).
+  unfold open_tag. rewrite run_cons.
+  assert (S1 : step (PS (MText (TS txt None)) kids stack) c_lt = PS MTagStart (flush_text txt kids) stack) by reflexivity.
+  rewrite S1. cbn [app]. rewrite run_cons. cbn [step]. rewrite (alpha_not_slash c Hc), Hc.
+  rewrite run_app, open_name_run by assumption. cbn [app].
+  rewrite (opts_run opts attrs (c :: r) [] _ _ stack (ready_open (c :: r)) Ho Ha). reflexivity.
+Qed.
+
+Lemma close_tag_run : forall tag opts attrs txt kids pkids stack,
+  name_okb tag = true ->
+  run_parser (close_tag tag) (PS (MText (TS txt None)) kids (((tag, opts, attrs), pkids) :: stack))
+  = PS (MText (TS [] None)) (pkids ++ [El tag opts attrs (flush_text txt kids)]) stack.
+Proof.
+  intros tag opts attrs txt kids pkids stack Ht.
+  unfold close_tag. rewrite run_cons.
+  assert (S1 : step (PS (MText (TS txt None)) kids (((tag, opts, attrs), pkids) :: stack)) c_lt
+               = PS MTagStart (flush_text txt kids) (((tag, opts, attrs), pkids) :: stack)) by reflexivity.
+  rewrite S1. rewrite run_cons.
+  assert (S2 : forall k st, step (PS MTagStart k st) c_slash = PS (MClose []) k st) by reflexivity.
+  rewrite S2. rewrite run_app, close_name_run by (now apply name_ok_chars). cbn [app].
+  rewrite run_cons, run_nil. cbn [step]. change (is_name_char c_gt) with false. change (c_gt =? c_gt) with true. cbv iota.
+  now rewrite str_eqb_refl.
+Qed.
+
+(* ------------------------------------------------------------------------------------------ *)
+(* induction over trees (children are a list of trees)                                          *)
+Section HnodeInd.
+  Variable P : hnode -> Prop.
+  Hypothesis HEl : forall tag opts attrs kids, Forall P kids -> P (El tag opts attrs kids).
+  Hypothesis HTxt : forall s, P (Txt s).
+  Hypothesis HRaw : forall s, P (Raw s).
+  Fixpoint hnode_ind' (t : hnode) : P t :=
+    match t with
+    | El tag opts attrs kids =>
+        HEl tag opts attrs kids
+          ((fix go (l : list hnode) : Forall P l :=
+              match l with [] => Forall_nil P | x :: r => Forall_cons x (hnode_ind' x) (go r) end) kids)
+    | Txt s => HTxt s
+    | Raw s => HRaw s
+    end.
+End HnodeInd.
+
+(* reading the rendering of a tree, in text mode, appends the tree to what has been read so far *)
+Definition reads (t : hnode) : Prop :=
+  forall txt kids stack,
+    run_parser (render t) (PS (MText (TS txt None)) kids stack)
+    = PS (MText (TS (snd (absorb (kids, txt) t)) None)) (fst (absorb (kids, txt) t)) stack.
+
+Lemma reads_list : forall ts, Forall reads ts -> forall txt kids stack,
+  run_parser (flat_map render ts) (PS (MText (TS txt None)) kids stack)
+  = PS (MText (TS (snd (fold_left absorb ts (kids, txt))) None)) (fst (fold_left absorb ts (kids, txt))) stack.
+Proof.
+  induction 1 as [|t ts Ht _ IH]; intros txt kids stack; [reflexivity|].
+  rewrite fm_cons, run_app, Ht. cbn [fold_left].
+  destruct (absorb (kids, txt) t) as [k' t'] eqn:E. cbn [fst snd]. apply IH.
+Qed.
+
+Lemma names_ok_reads : forall t, names_ok t -> reads t.
+Proof.
+  induction t as [tag opts attrs kids IH|s|s] using hnode_ind'; intros H txt kids0 stack.
+  - unfold names_ok in H. cbn [names_okb] in H.
+    apply andb_prop in H; destruct H as [H Hk]. apply andb_prop in H; destruct H as [H Ha].
+    apply andb_prop in H; destruct H as [Ht Ho].
+    assert (Hr : Forall reads kids).
+    { rewrite Forall_forall in IH |- *. intros x Hx. apply IH; [assumption|].
+      rewrite forallb_forall in Hk. now apply Hk. }
+    cbn [render]. rewrite run_app, open_tag_run by assumption.
+    rewrite run_app, (reads_list kids Hr).
+    rewrite close_tag_run by assumption.
+    cbn [absorb fst snd]. unfold flush. cbn [fst snd]. reflexivity.
+  - cbn [render absorb fst snd]. apply text_run.
+  - discriminate H.
+Qed.
+
+Theorem render_parse_list : forall ts, Forall names_ok ts -> parse_html (render_list ts) = Some (normalize ts).
+Proof.
+  intros ts H. unfold parse_html, render_list, pstart.
+  rewrite reads_list by (eapply Forall_impl; [|exact H]; apply names_ok_reads).
+  reflexivity.
+Qed.
+
+Theorem render_parse : forall t, names_ok t -> parse_html (render t) = Some (normalize [t]).
+Proof.
+  intros t H. rewrite <- (render_parse_list [t]) by (constructor; [assumption|constructor]).
+  unfold render_list. cbn [flat_map]. now rewrite app_nil_r.
+Qed.
+
+(* an element parses back to exactly one element, with the same tag, options and attributes *)
+Lemma normalize_el : forall tag opts attrs kids, normalize [El tag opts attrs kids] = [El tag opts attrs (normalize kids)].
+Proof. reflexivity. Qed.
+
+(* what writing data verbatim does: the defect positions *)
+Definition s_k_i : str := Eval compute in str_of "k<i>"%string.
+Definition s_k_i_closed : str := Eval compute in str_of "k<i></i>"%string.
+Definition s_i : str := Eval compute in str_of "i"%string.
+Definition s_k : str := Eval compute in str_of "k"%string.
+Lemma raw_key_malformed : parse_html (render (El s_span [] [] [Raw s_k_i])) = None.
+Proof. vm_compute. reflexivity. Qed.
+Lemma raw_key_injects : parse_html (render (El s_span [] [] [Raw s_k_i_closed])) = Some [El s_span [] [] [Txt s_k; El s_i [] [] []]].
+Proof. vm_compute. reflexivity. Qed.
+Lemma escaped_key_is_text : parse_html (render (El s_span [] [] [Txt s_k_i_closed])) = Some [El s_span [] [] [Txt s_k_i_closed]].
+Proof. vm_compute. reflexivity. Qed.
